@@ -9,7 +9,7 @@ MODELLED = ("worktree.go: Checkout, createBranch, getCommitFromCheckoutOptions, 
             "resetIndex, resetWorktree, resetWorktreeToTree (steps 1-2), checkoutChange, containsUnstagedChanges, "
             "checkKeepResetConflicts + the part of Status it reads, setHEADCommit, headTree — over flattened trees "
             "path -> (mode, blob) (Model/Porcelain.v); not modelled: merkletrie traversal order and directory/file conflicts "
-            "(guard df_free), the metadata shortcut of the filesystem noder, sparse dirs / skip-worktree, submodules, "
+            "(guard df_free), deleted blobs / nested trees (missing commits, missing root trees, tree/blob hashes as targets ARE modelled), the metadata shortcut of the filesystem noder, sparse dirs / skip-worktree, submodules, "
             "ResetOptions.Files, autocrlf, .gitignore, the billy filesystem calls themselves (exercised by the correspondence)")
 TRUSTED = [
     "C-impl: harness/cmd/porcelain builds the repository of each case with go-git plumbing, runs the ops through "
@@ -32,7 +32,7 @@ class Main(P.PorcelainSuite):
     name = "main"
     quick_n = 150
     thorough_n = 1000
-    buckets = [(5, "hard"), (3, "untracked"), (3, "rmcached"), (2, "staged"), (2, "random"), (1, "errors"), (1, "df")]
+    buckets = [(5, "hard"), (3, "untracked"), (3, "rmcached"), (2, "staged"), (2, "random"), (1, "errors"), (1, "missing"), (1, "df")]
     weights = {"force": 6, "plain": 2, "ckeep": 1, "hard": 6, "merge": 1, "keep": 1, "mixed": 1, "soft": 1}
 
     def oracle(self, ctx, cases, impl, model):
